@@ -107,18 +107,6 @@ def delimsAt (m : Nat → Nat) (dl : Nat) : List Nat := cstr m dl STRTOK_DELIM_M
 theorem isDelim_eq (m : Nat → Nat) (dl : Nat) : isDelim m dl = fun c => (delimsAt m dl).contains c := by
   funext c; exact inSet_eq_contains m c dl _
 
-theorem takeWhile_length_le (d : Nat → Bool) (l : List Nat) : (l.takeWhile d).length ≤ l.length := by
-  have := congrArg List.length (List.takeWhile_append_dropWhile (p := d) (l := l))
-  rw [List.length_append] at this; omega
-
-theorem dropWhile_eq_drop (d : Nat → Bool) (l : List Nat) : l.dropWhile d = l.drop (l.takeWhile d).length := by
-  induction l with
-  | nil => rfl
-  | cons a l ih =>
-    by_cases ha : d a = true
-    · rw [List.dropWhile_cons_of_pos ha, List.takeWhile_cons_of_pos ha, ih]; rfl
-    · rw [List.dropWhile_cons_of_neg ha, List.takeWhile_cons_of_neg ha]; rfl
-
 theorem skipD_eq (m : Nat → Nat) (dl n p : Nat) :
     skipD m dl n p = p + ((cstr m p n).takeWhile (isDelim m dl)).length := by
   induction n generalizing p with
@@ -170,29 +158,6 @@ def refCallSpec (base lim : Nat) (r : RefCall) : CallSpec :=
     ptr := base + r.next
     rem := lim - (base + r.next)
     cut := r.cut.map (fun c => base + c) }
-
-/-- the three shapes of one reference call -/
-def refHead (d : Nat → Bool) (off : Nat) (s : List Nat) : RefCall :=
-  let lead := (s.takeWhile d).length
-  let s1 := s.dropWhile d
-  let t := s1.takeWhile (fun c => !d c)
-  let s2 := s1.dropWhile (fun c => !d c)
-  if s1 = [] then { tok := none, next := off + lead, cut := none }
-  else if s2 = [] then { tok := some (off + lead, t), next := off + lead + t.length, cut := none }
-  else { tok := some (off + lead, t), next := off + lead + t.length + 1, cut := some (off + lead + t.length) }
-
-/-- the string the next call works on -/
-def refRest (d : Nat → Bool) (s : List Nat) : List Nat :=
-  ((s.dropWhile d).dropWhile (fun c => !d c)).drop 1
-
-theorem refSeq_cons (d : Nat → Bool) (rest : List (Nat → Bool)) (off : Nat) (s : List Nat) :
-    refSeq (d :: rest) off s = refHead d off s :: refSeq rest (refHead d off s).next (refRest d s) := by
-  simp only [refSeq, refHead, refRest]
-  by_cases h1 : s.dropWhile d = []
-  · simp [h1]
-  · by_cases h2 : (s.dropWhile d).dropWhile (fun c => !d c) = []
-    · simp [h1, h2]
-    · simp [h1, h2]
 
 /-- **one call on the memory = one step of the list-level reference** -/
 theorem callSpec_eq_ref (m : Nat → Nat) (dl p n base off : Nat) (hz : scanLen m p n < n) (hp : p = base + off) :
